@@ -322,6 +322,9 @@ class MolQueryReader(object):
         except Exception:
             msg = 'Atom Label '+tree[3][1]+' not found'
             raise RINGReaderError(msg)
+        if idx_connected == idx:
+            raise RINGReaderError('Atom Label ' + tree[3][1]
+                                  + ' is bonded to itself')
         self.ReadBondTypeBondedAtom(idx, idx_connected,
                                     bondtype, molquery)
 
@@ -345,6 +348,9 @@ class MolQueryReader(object):
         except Exception:
             msg = 'Atom Label '+tree[2][1]+' not found'
             raise RINGReaderError(msg)
+        if idx1 == idx2:
+            raise RINGReaderError('Atom Label ' + tree[0][1]
+                                  + ' is bonded to itself')
         self.ReadBondTypeBondedAtom(idx1, idx2, bondtype, molquery)
 
     def ReadStereoDoubleBond(self, tree, molquery):
